@@ -1,8 +1,16 @@
 //! C12: lists the names registered in `Environment::new()` (filters, tests, global functions) so
 //! that the sweep of tools/props/C12.py covers every built-in the current tree has.
 //! Output: one JSON line {"filters":[..],"tests":[..],"globals":[..]}.
-use minijinja::Environment;
-use serde_json::json;
+//!
+//! `c12 fmt`: JSON lines {"src":..,"ctx":..,"undefined":..} rendered by an environment with a
+//! CUSTOM formatter (wrapping escape_formatter), so that every print goes through
+//! `Environment::format` instead of the fast path of `Instruction::Emit`; answers
+//! {"ok":text} | {"err":kind code} | {"panic":true}.
+use std::io::BufRead;
+use std::panic::{catch_unwind, AssertUnwindSafe};
+
+use minijinja::{escape_formatter, Environment, UndefinedBehavior};
+use serde_json::{json, Value as J};
 
 /// extracts the list printed after `<field>: [` in the Debug output of the environment
 fn names_after(dbg: &str, field: &str) -> Vec<String> {
@@ -36,7 +44,40 @@ fn names_after(dbg: &str, field: &str) -> Vec<String> {
     out
 }
 
+fn render_with_formatter(req: &J) -> J {
+    let mut env = Environment::new();
+    env.set_formatter(|out, state, value| escape_formatter(out, state, value));
+    env.set_undefined_behavior(match req.get("undefined").and_then(|x| x.as_str()).unwrap_or("lenient") {
+        "strict" => UndefinedBehavior::Strict,
+        "semistrict" => UndefinedBehavior::SemiStrict,
+        "chainable" => UndefinedBehavior::Chainable,
+        _ => UndefinedBehavior::Lenient,
+    });
+    let src = req.get("src").and_then(|x| x.as_str()).unwrap_or("").to_string();
+    let ctx = minijinja::Value::from(minijinja::value::Serde(req.get("ctx").cloned().unwrap_or(J::Null)));
+    match env.render_str(&src, ctx) {
+        Ok(s) => json!({"ok": s}),
+        Err(e) => json!({"err": mjverif::err_code(e.kind())}),
+    }
+}
+
 fn main() {
+    if std::env::args().nth(1).as_deref() == Some("fmt") {
+        mjverif::install_quiet_panic_hook();
+        for line in std::io::stdin().lock().lines() {
+            let line = match line {
+                Ok(l) => l,
+                Err(_) => break,
+            };
+            if line.trim().is_empty() {
+                continue;
+            }
+            let req: J = serde_json::from_str(&line).unwrap_or(J::Null);
+            let r = catch_unwind(AssertUnwindSafe(|| render_with_formatter(&req))).unwrap_or_else(|_| json!({"panic": true}));
+            println!("{}", r);
+        }
+        return;
+    }
     let env = Environment::new();
     let dbg = format!("{:?}", env);
     let filters = names_after(&dbg, "filters");
